@@ -49,6 +49,9 @@ def one(ctx, data, meta=None, opts=pk.OPTS):
 
 def run(ctx):
     for f in stored_corpus('C13'): replay(ctx, json.load(open(f)))
+    from gen.probes import probes
+    for name, data in probes('C13'):
+        ctx.count('probe'); one(ctx, data, None)
     n = 120 if ctx.quick else 6000
     for pkg, meta, rng in stream(ctx, PROF, n):
         data = pkg.to_bytes()
